@@ -17,6 +17,7 @@ import (
 	"slices"
 	"strings"
 	"sync"
+	"unicode"
 )
 
 // Equal reports whether two Go values representing JSON values are equal according
@@ -536,7 +537,8 @@ func fieldJSONInfo(f reflect.StructField) jsonInfo {
 		if name == "-" && !found {
 			return jsonInfo{omit: true}
 		}
-		if name != "" {
+		// encoding/json ignores a name it does not consider valid.
+		if isValidTagName(name) {
 			info.name = name
 		}
 		if len(rest) > 0 {
@@ -547,6 +549,36 @@ func fieldJSONInfo(f reflect.StructField) jsonInfo {
 		}
 	}
 	return info
+}
+
+// jsonTagName returns the name that the json tag of f gives to the field.
+// It returns "" if there is none: no tag, no name in the tag, or a name that
+// encoding/json does not consider valid and therefore ignores.
+func jsonTagName(f reflect.StructField) string {
+	name, _, _ := strings.Cut(f.Tag.Get("json"), ",")
+	if !isValidTagName(name) {
+		return ""
+	}
+	return name
+}
+
+// isValidTagName reports whether encoding/json accepts name as the name
+// part of a json struct tag (see isValidTag in encoding/json).
+func isValidTagName(name string) bool {
+	if name == "" {
+		return false
+	}
+	for _, c := range name {
+		switch {
+		case strings.ContainsRune("!#$%&()*+-./:;<=>?@[]^_{|}~ ", c):
+			// Backslash and quote chars are reserved, but
+			// otherwise any punctuation chars are allowed
+			// in a tag name.
+		case !unicode.IsLetter(c) && !unicode.IsDigit(c):
+			return false
+		}
+	}
+	return true
 }
 
 // wrapf wraps *errp with the given formatted message if *errp is not nil.
